@@ -89,5 +89,57 @@ def claim_tree_values_checks_before_claim(repo=None):
     return rep
 
 
+STORAGE_CLAIMING = ["claim_tree_values", "claim_entries", "claim_next_free", "next_free"]
+
+
+def commit_changes_claims_nothing_before_validation(repo=None):
+    """C08 'no storage is consumed by a rejected transaction': DbInner::commit_changes builds the change set operation by
+    operation and may return Err at any later operation (or in commit_raw's validation). Every call inside that loop that
+    claims value-table slots is therefore an effect of a transaction that may still be rejected. One obligation per call
+    site (callee + ordinal), so that a listed finding never hides a new site."""
+    repo = repo or scratch.REPO
+    base = "U10.commit_changes.no_storage_claimed_before_the_transaction_is_validated"
+    rep = {"unit": "syntactic:commit_changes_claims_nothing_before_validation", "status": "undecided", "reason": "", "failed": [],
+           "named": [base], "obligations": 1, "verified": 0, "errors": 0,
+           "cmd": "call-site scan of the per-operation loop of DbInner::commit_changes in src/db.rs", "wall_s": 0.0,
+           "functions": ["db::DbInner::commit_changes"], "trusted_scan": {"syntactic-check (not a proof)": 1}, "smt_s": 0}
+    try:
+        src = open(os.path.join(repo, "src/db.rs")).read()
+        start, fnpos, body_open, end = extract.find_fn(src, "commit_changes", impl="DbInner")
+    except (extract.LostAnchor, OSError) as e:
+        rep["reason"] = "commit_changes not found: %s" % e
+        return rep
+    body = re.sub(r"//[^\n]*", "", src[body_open:end])
+    m = re.search(r"for\s*\([^)]*\)\s*in\s+tx(\.into_iter\(\))?\s*\{", body)
+    if not m:
+        rep["reason"] = "per-operation loop of commit_changes not found (code restructured)"
+        return rep
+    try:
+        loop_end = extract.match_brace(body, m.end() - 1)
+    except extract.LostAnchor as e:
+        rep["reason"] = str(e)
+        return rep
+    loop = body[m.end():loop_end]
+    sites = []
+    for callee in STORAGE_CLAIMING:
+        for n, _cm in enumerate(re.finditer(r"\.%s\s*\(" % callee, loop), 1):
+            sites.append("%s#%d" % (callee, n))
+    rep["obligations"] = max(1, len(sites))
+    if not sites:
+        rep["status"] = "verified"
+        rep["verified"] = 1
+        return rep
+    rep["status"] = "failed"
+    rep["errors"] = len(sites)
+    rep["named"] = ["%s[%s]" % (base, x) for x in sites]
+    for x in sites:
+        why = "commit_changes calls %s inside the per-operation loop: the slots stay claimed when a later operation of the same transaction (or commit_raw's validation) rejects it" % x.split("#")[0]
+        rep["failed"].append({"obligation": "%s[%s]" % (base, x), "clause": why, "function": "DbInner::commit_changes",
+                              "diag": "call-site scan: " + why + "\nnative demonstration: findings/c08_rejected_tx_claims_slots.rs",
+                              "text": src[start:end][:8000]})
+    return rep
+
+
 CHECKS = {"commit_raw_checks_before_publish": commit_raw_checks_before_publish,
-          "claim_tree_values_checks_before_claim": claim_tree_values_checks_before_claim}
+          "claim_tree_values_checks_before_claim": claim_tree_values_checks_before_claim,
+          "commit_changes_claims_nothing_before_validation": commit_changes_claims_nothing_before_validation}
